@@ -554,6 +554,13 @@ class Engine:
     # ---- obligations
     def prove(self, cond, label, info=None):
         """Obligation: cond must hold for every value of the symbolic inputs on this path."""
+        if cond is True:          # fast path: decided concretely on this path
+            st = self.stats
+            st.obligations += 1
+            st.discharged += 1
+            if self.symbolic:
+                st.trivial += 1
+            return True
         return self.prove_all([(label, cond, info)])
 
     def prove_all(self, items):
